@@ -223,9 +223,6 @@ func (h *H) elements(mult int) {
 	for kind := 0; kind < 4; kind++ {
 		n := []int{16, 8, 4, 3}[kind]
 		for d := -n; d <= n; d++ { // every relative placement, from disjoint-before over identical to disjoint-after
-			if kind < 2 && d%3 != 0 && d != 1 && d != -1 && !(mult > 1) {
-				continue
-			}
 			h.identOverlap(kind, n+1, n+1+d)
 		}
 	}
